@@ -223,7 +223,7 @@ def fromFileOp (animProp : Bool) (initOk : Bool) : Prog :=
             if animProp then act (.pil .isAnimated .img) else done])
 
 /-- what the HTTP layer answered -/
-inductive Http | ok | notFound | connError
+inductive Http | ok | notFound | connError | badType | badUrl
 deriving DecidableEq, Repr
 
 /-- `from_url`: `response = requests.get(url); if 404: raise URLNotFoundError;
@@ -232,6 +232,8 @@ deriving DecidableEq, Repr
     The image opened from memory is referenced by nothing once `_source` is replaced. -/
 def fromUrlOp (h : Http) (identifiable animProp initOk : Bool) : Prog :=
   match h with
+  | .badType => raise .typeError       -- not isinstance(url, str)
+  | .badUrl => raise .valueError       -- not all(urlparse(url)[:3])
   | .connError => raise .connection
   | .notFound => raise .urlNotFound
   | .ok =>
